@@ -133,15 +133,19 @@ PlsDataForms == {"fortran", "strided"}          \* CP_PLSR centres the data in p
 \* rescalings by the harness), so every clause below is unit-free: a model that only works for O(1) data fails them.
 UnitPairs == {<<0, 0>>, <<-20, -20>>, <<-40, -30>>, <<80, 50>>, <<30, -40>>}
 UnitRanks == IF FullCross THEN 1..3 ELSE {1, 3}          \* ranks / component counts of the non-base-unit configurations
+\* dtypes AT FIT TIME: "x32" X float32 with float64 targets, "xint" X int64, "reg32"/"reg64" reg_W a NumPy scalar
+FitForms == {"f64", "x32", "xint", "reg32", "reg64"}
+\* SIZE regime of CP_PLSR: one shape with more than 50 000 features per sample (few samples, unstructured data)
+BigShapes == {<<40, 40, 32>>}
 NRegPairs == IF FullCross THEN NSamples \X Regs ELSE {<<6, 1>>, <<9, 10>>, <<12, 100>>}
 PlsN(ny, nc) == IF FullCross THEN NSamples ELSE {<<6, 9, 12>>[((ny + nc) % 3) + 1]}
 ValidReg(c) ==
     /\ c.model \in {"cp", "tucker"} /\ c.n \in NSamples /\ c.xs \in SampleShapes /\ c.reg \in Regs /\ c.k \in 1..Draws
-    /\ c.opt \in RegOpts /\ <<c.ux, c.uy>> \in UnitPairs
+    /\ c.opt \in RegOpts /\ <<c.ux, c.uy>> \in UnitPairs /\ c.ff \in FitForms
     /\ IF c.model = "cp" THEN c.ys \in TargetShapes /\ c.rank \in 1..3 /\ c.ranks = <<>>
        ELSE c.ys = <<>> /\ c.rank \in 1..3 /\ c.ranks = TuckerRanks(c.xs, c.rank)
 WeightShape(c) == c.xs \o c.ys
-ValidPls(c) == /\ c.n \in NSamples /\ c.xs \in SampleShapes /\ c.ny \in 0..3 /\ c.nc \in 1..3 /\ c.k \in 1..PlsDraws
+ValidPls(c) == /\ c.n \in NSamples /\ c.xs \in SampleShapes \cup BigShapes /\ c.ny \in 0..3 /\ c.nc \in 1..3 /\ c.k \in 1..PlsDraws
                /\ c.opt \in PlsOpts /\ <<c.ux, c.uy>> \in UnitPairs
 YCols(c) == IF c.ny = 0 THEN 1 ELSE c.ny      \* ny = 0: Y given as a vector
 
@@ -184,19 +188,26 @@ ThmOK(c) ==
 (* Design run: the domain enumerated as states.                                                   *)
 NoCfg == [kind |-> "none"]
 Seeds == {[kind |-> "seed", fam |-> f, xs |-> xs] : f \in {"cp", "tucker", "pls", "thm"}, xs \in SampleShapes}
+         \cup {[kind |-> "seed", fam |-> "plsbig", xs |-> xs] : xs \in BigShapes}
 CfgsOf(sd) ==
     CASE sd.fam = "cp" ->
             {[kind |-> "reg", model |-> "cp", n |-> nr[1], xs |-> sd.xs, ys |-> ys, rank |-> r, ranks |-> <<>>, reg |-> nr[2], opt |-> o,
-              ux |-> u[1], uy |-> u[2], k |-> k] :
+              ux |-> u[1], uy |-> u[2], ff |-> "f64", k |-> k] :
                 nr \in NRegPairs, ys \in TargetShapes, r \in 1..3, o \in RegOpts, k \in 1..Draws, u \in {<<0, 0>>}}
             \cup {[kind |-> "reg", model |-> "cp", n |-> 9, xs |-> sd.xs, ys |-> ys, rank |-> r, ranks |-> <<>>, reg |-> 10, opt |-> "tight",
-                    ux |-> u[1], uy |-> u[2], k |-> 1] : ys \in TargetShapes, r \in UnitRanks, u \in UnitPairs \ {<<0, 0>>}}
+                    ux |-> u[1], uy |-> u[2], ff |-> "f64", k |-> 1] : ys \in TargetShapes, r \in UnitRanks, u \in UnitPairs \ {<<0, 0>>}}
+            \cup {[kind |-> "reg", model |-> "cp", n |-> 9, xs |-> sd.xs, ys |-> ys, rank |-> r, ranks |-> <<>>, reg |-> 10, opt |-> "tight",
+                    ux |-> 0, uy |-> 0, ff |-> f, k |-> 1] : ys \in TargetShapes, r \in UnitRanks, f \in FitForms \ {"f64"}}
       [] sd.fam = "tucker" ->
             {[kind |-> "reg", model |-> "tucker", n |-> nr[1], xs |-> sd.xs, ys |-> <<>>, rank |-> r, ranks |-> TuckerRanks(sd.xs, r), reg |-> nr[2], opt |-> o,
-              ux |-> u[1], uy |-> u[2], k |-> k] :
+              ux |-> u[1], uy |-> u[2], ff |-> "f64", k |-> k] :
                 nr \in NRegPairs, r \in 1..3, o \in RegOpts, k \in 1..Draws, u \in {<<0, 0>>}}
             \cup {[kind |-> "reg", model |-> "tucker", n |-> 9, xs |-> sd.xs, ys |-> <<>>, rank |-> r, ranks |-> TuckerRanks(sd.xs, r), reg |-> 10, opt |-> "tight",
-                    ux |-> u[1], uy |-> u[2], k |-> 1] : r \in UnitRanks, u \in UnitPairs \ {<<0, 0>>}}
+                    ux |-> u[1], uy |-> u[2], ff |-> "f64", k |-> 1] : r \in UnitRanks, u \in UnitPairs \ {<<0, 0>>}}
+            \cup {[kind |-> "reg", model |-> "tucker", n |-> 9, xs |-> sd.xs, ys |-> <<>>, rank |-> r, ranks |-> TuckerRanks(sd.xs, r), reg |-> 10, opt |-> "tight",
+                    ux |-> 0, uy |-> 0, ff |-> f, k |-> 1] : r \in UnitRanks, f \in FitForms \ {"f64"}}
+      [] sd.fam = "plsbig" ->
+            {[kind |-> "pls", n |-> 6, xs |-> sd.xs, ny |-> 2, nc |-> nc, opt |-> "default", ux |-> 0, uy |-> 0, k |-> 1] : nc \in {1, 2}}
       [] sd.fam = "pls" ->
             UNION {{[kind |-> "pls", n |-> n, xs |-> sd.xs, ny |-> ny, nc |-> nc, opt |-> o, ux |-> 0, uy |-> 0, k |-> k] :
                         n \in PlsN(ny, nc), o \in PlsOpts, k \in 1..PlsDraws} : ny \in 0..3, nc \in 1..3}
